@@ -180,6 +180,9 @@ func applyTarget(target []byte, st *state.State, ca cache.Memory, ctx context.Co
 		return location, idx, nil
 	default:
 		sym = string(target)
+		if st.Depth() >= state.MaxLevel {
+			return sym, idx, fmt.Errorf("max levels exceeded (%d)", state.MaxLevel)
+		}
 		err := st.Down(sym)
 		if err != nil {
 			return sym, idx, err
